@@ -828,7 +828,8 @@ Section Preserve.
     set (T := c_ts x0) in *. set (tb := attach_buf st T) in *.
     assert (Hts : tb_ts tb = T) by (unfold tb, attach_buf; destruct (find_buf T (st_bufs st)); reflexivity).
     assert (Htold : tb_old tb = false).
-    { unfold tb, attach_buf. destruct (find_buf T (st_bufs st)) as [b|] eqn:E; [apply Hold; reflexivity|reflexivity]. }
+    { unfold tb, attach_buf. destruct (find_buf T (st_bufs st)) as [b|] eqn:E; cbn [tb_old]; [|reflexivity].
+      first [exact (Hold b E)|exact (Hold b eq_refl)]. }
     assert (Hsame : forall T', find_buf T' (put_buf tb (st_bufs st)) =
                                if ts_eqb T' T then Some tb else find_buf T' (st_bufs st)).
     { intros T'. destruct (ts_eqb T' T) eqn:E.
@@ -836,7 +837,7 @@ Section Preserve.
       - apply ts_eqb_neq in E. apply find_put_buf_other. rewrite Hts. exact E. }
     assert (HX : exists X, proj T pub = X ++ tb_items tb).
     { unfold tb, attach_buf. destruct (find_buf T (st_bufs st)) as [b|] eqn:E; cbn [tb_items].
-      - apply (Hbuf T b E). apply Hold; reflexivity.
+      - apply (Hbuf T b E). first [exact (Hold b E)|exact (Hold b eq_refl)].
       - exists (proj T pub). rewrite app_nil_r. reflexivity. }
     destruct (Hupd pub r Hlog Hr Hall HX (Hcl c x0 Ec)) as [Hc1 Hcache].
     assert (Hlive : forall off h, buf_live (find_buf T (st_bufs st)) off ->
@@ -875,5 +876,331 @@ Section Preserve.
         intros Hl. apply Hlive, Hl.
       + fold T. rewrite ts_eqb_refl. exact Hc.
     - apply nodup_put_client, Gn.
+  Qed.
+
+  (* the resumed subscription: the head of the topic buffer carries the client's index *)
+  Lemma cinv_resume h ob0 tb r x0 pub X :
+    incr (map item_idx (proj (c_ts x0) (h_log h))) ->
+    h_log h = pub ++ h_queue h -> proj (c_ts x0) pub = X ++ tb_items tb -> tb_old tb = false ->
+    (forall it, In it (proj (c_ts x0) (h_log h)) -> r < item_idx it) ->
+    c_idx x0 <> 0 -> head_has_index (tb_items tb) (c_idx x0) = true ->
+    cinv gf h ob0 r x0 ->
+    cinv gf h (Some tb) r
+         (Client (c_ts x0) (c_tok x0) (c_rpc x0) (c_view x0) (c_idx x0) (initial_handler (c_idx x0))
+                 (Some (Sub Open [] (List.length (tb_items tb)))) (c_epoch x0)).
+  Proof.
+    intros Hinc Hlog HX Hold Hr Hne Hhead (Hi & Hep & Hz & Hs & Hk & _).
+    apply head_index_spec in Hhead as (l & evs & Hitems).
+    set (T := c_ts x0) in *. set (P := X ++ tb_items tb).
+    assert (Hsplit : proj T (h_log h) = P ++ proj T (h_queue h)).
+    { rewrite Hlog, proj_app, HX. reflexivity. }
+    assert (HPne : P <> []).
+    { unfold P. rewrite Hitems. intros H. apply app_eq_nil in H as [_ H]. apply app_eq_nil in H as [_ H]. discriminate. }
+    assert (HPl : lastidx P 0 = c_idx x0).
+    { unfold P. rewrite Hitems, app_assoc, lastidx_app_single. reflexivity. }
+    pose proof Hinc as Hinc'. rewrite Hsplit in Hinc'.
+    destruct (incr_last_bounds _ _ _ Hinc' HPne HPl) as [HPle HQgt].
+    assert (Hih : initial_handler (c_idx x0) = HResume).
+    { unfold initial_handler. apply N.eqb_neq in Hne. rewrite Hne. reflexivity. }
+    assert (Htl : forall h', h_queue h' = h_queue h ->
+                             tail h' T (Some tb) (List.length (tb_items tb)) = proj T (h_queue h)).
+    { intros h' Eq. unfold tail. cbn [ob_items]. rewrite skipn_all, Eq. reflexivity. }
+    unfold cinv, knows. cbn [c_idx c_epoch c_view c_h c_sub c_ts s_status]. fold T.
+    split; [exact Hi|]. split; [exact Hep|]. split; [exact Hz|].
+    split; [rewrite Hih; intros ? H; discriminate|]. split; [exact Hk|].
+    split; [exists tb; repeat split; auto; lia|]. left. cbn [s_pre s_off c_h c_epoch c_ts c_view c_idx]. fold T.
+    split; [reflexivity|]. split; [right; exact Hih|].
+    destruct Hk as [Hk|[[He (A & B1 & B2 & D & s & Hc)]|[_ Hle]]]; [contradiction| |].
+    2: { (* a view of a replaced store: its index is below every index of the log *)
+      exfalso. assert (In (IEv (c_idx x0) evs) (proj T (h_log h))) as Hin.
+      { rewrite Hsplit. unfold P. rewrite Hitems, !in_app_iff. left; right; right. left; reflexivity. }
+      specialize (Hr _ Hin). cbn [item_idx] in Hr. lia. }
+    split; [exact He|]. fold T in Hc. destruct Hc as [Hsp Hv Hle Hgt Hci Hss Hg].
+    rewrite Hsplit in Hsp.
+    destruct B1 as [|b1 B1'].
+    - (* only the snapshot was applied: everything up to its index has been published *)
+      cbn [lastidx map last] in Hci. cbn [app] in Hsp, Hle, Hv.
+      rewrite Hci in HPle, HQgt. rewrite app_assoc in Hsp.
+      destruct (split_unique s _ _ _ _ HPle HQgt Hle Hgt Hsp) as [EP EQ].
+      exists (A ++ B2), [], [], D, s. split.
+      + constructor; auto.
+        * rewrite Hsplit, EP, EQ. reflexivity.
+        * intros k. rewrite (Hv k). cbn [app]. rewrite app_nil_r. reflexivity.
+        * cbn [app]. rewrite app_nil_r. exact Hle.
+      + rewrite Htl by reflexivity. rewrite EQ. reflexivity.
+    - (* some events were applied after the snapshot: the last one is the head of the buffer *)
+      assert (HB : lastidx (A ++ b1 :: B1') 0 = c_idx x0).
+      { rewrite lastidx_app_nonempty by discriminate. rewrite Hci. unfold lastidx. apply last_default.
+        cbn [map]. discriminate. }
+      assert (Hne' : A ++ b1 :: B1' <> []) by (destruct A; discriminate).
+      pose proof Hinc' as Hinc2. rewrite Hsp in Hinc2. rewrite (app_assoc A) in Hinc2.
+      destruct (incr_last_bounds _ _ _ Hinc2 Hne' HB) as [HAle HRgt].
+      rewrite (app_assoc A) in Hsp.
+      destruct (split_unique (c_idx x0) _ _ _ _ HPle HQgt HAle HRgt Hsp) as [EP EQ].
+      exists A, (b1 :: B1'), B2, D, s. split.
+      + constructor; auto. rewrite Hsplit, EP, EQ, <- app_assoc. reflexivity.
+      + rewrite Htl by reflexivity. exact EQ.
+  Qed.
+
+  (* the subscription that starts with a snapshot (fresh or cached) *)
+  Lemma cinv_snapshot h ob0 tb r x0 sn body A B2 D s :
+    tb_old tb = false -> (sn_off sn <= List.length (tb_items tb))%nat ->
+    sn_items sn = body ++ [IEos s] ->
+    snapok gf h (c_ts x0) (Some tb) [] body (sn_off sn) A B2 D s ->
+    cinv gf h ob0 r x0 ->
+    cinv gf h (Some tb) r
+         (Client (c_ts x0) (c_tok x0) (c_rpc x0) (c_view x0) (c_idx x0) (initial_handler (c_idx x0))
+                 (Some (Sub Open (if N.eqb (c_idx x0) 0 then sn_items sn else INstf :: sn_items sn) (sn_off sn)))
+                 (c_epoch x0)).
+  Proof.
+    intros Hold Hoff Hit Hso (Hi & Hep & Hz & Hs & Hk & _).
+    unfold cinv, knows. cbn [c_idx c_epoch c_view c_h c_sub c_ts s_status].
+    split; [exact Hi|]. split; [exact Hep|]. split; [exact Hz|]. split.
+    { unfold initial_handler. destruct (N.eqb (c_idx x0) 0) eqn:E; [|intros ? H; discriminate].
+      intros _ _. apply N.eqb_eq, E. }
+    split; [exact Hk|]. split; [exists tb; auto|]. right.
+    exists [], body, A, B2, D, s. cbn [c_h s_pre s_off c_ts]. split; [|exact Hso].
+    unfold initial_handler. destruct (N.eqb (c_idx x0) 0); rewrite Hit; [left|right]; auto.
+  Qed.
+
+  (* eventSnapshot.appendAndSplice on the store as it is now *)
+  Lemma build_snapok st T qidx pub X tb :
+    ginv gf st -> st_log st = pub ++ st_queue st -> proj T pub = X ++ tb_items tb ->
+    Forall (fun b => touches T b = true -> b_idx b <= qidx) (st_log st) -> qidx <= st_hi st ->
+    (gf = true -> st_queue st = []) ->
+    let s := if N.eqb qidx 0 then 1 else qidx in
+    build_snap T (st_store st) qidx (tb_items tb) =
+      Snap T (snap_events T (st_store st) qidx ++ [IEos s]) (List.length (tb_items tb)) /\
+    snapok gf (hist_of st) T (Some tb) [] (snap_events T (st_store st) qidx) (List.length (tb_items tb))
+           (proj T pub) (proj T (st_queue st)) [] s.
+  Proof.
+    intros G Hlog HX Hq Hqhi Hgap s. destruct G as [Gnd Gst Glok Ginc Ghi _ _ _ _].
+    assert (Hqs : qidx <= s) by (unfold s; destruct (N.eqb qidx 0) eqn:E; [apply N.eqb_eq in E|]; lia).
+    assert (Hs1 : 1 <= s <= st_hi st).
+    { unfold s. destruct (N.eqb qidx 0) eqn:E; [lia|]. apply N.eqb_neq in E. lia. }
+    assert (Hle : Forall (fun it => item_idx it <= s) (proj T (st_log st))).
+    { eapply Forall_impl; [|apply proj_le; exact Hq]. cbn. intros; lia. }
+    split.
+    - unfold build_snap. fold s. f_equal. apply splice_len. intros it Hit.
+      rewrite Forall_forall in Hle. apply Hle. rewrite Hlog, proj_app, HX, !in_app_iff. left; right; exact Hit.
+    - destruct (snap_events_spec T (st_store st) qidx) as [Hev Hiev].
+      constructor; cbn [hist_of h_log h_base h_hi h_queue]; auto.
+      + rewrite Hlog, proj_app, app_nil_r. reflexivity.
+      + intros k. cbn [app]. rewrite Hev, aget_apply_rows by exact Gnd.
+        destruct (matches T k) eqn:Ek; [|reflexivity].
+        rewrite (Gst k), (aget_all_evs_proj T) by assumption. rewrite Hlog, proj_app. reflexivity.
+      + unfold tail. cbn [ob_items hist_of h_queue]. rewrite skipn_all, app_nil_r. reflexivity.
+      + rewrite <- proj_app, <- Hlog. exact Hle.
+      + intros Hgf. rewrite (Hgap Hgf). reflexivity.
+  Qed.
+
+  Lemma ginv_sub_core st c x0 qidx :
+    ginv gf st -> find_client c (st_clients st) = Some x0 -> c_sub x0 = None ->
+    sub_env_ok st (c_ts x0) (c_idx x0) qidx ->
+    ginv gf (fst (do_subscribe_core st c x0 qidx)).
+  Proof.
+    intros G Ec Es0 (Hq & Hold & Hgap). unfold do_subscribe_core.
+    set (T := c_ts x0) in *. set (idx := c_idx x0) in *.
+    assert (Hpath : sub_path st T idx <> PErr ->
+                    sub_path st T idx =
+                    (if negb (N.eqb idx 0) && head_has_index (buf_items T (st_bufs st)) idx then PResume
+                     else match find_snap T (st_cache st) with Some _ => PCache | None => PBuild end) /\
+                    Forall (fun b => touches T b = true -> b_idx b <= qidx) (st_log st) /\ qidx <= st_hi st).
+    { intros Hne. destruct (sub_path_not_err st T idx Hne) as [Hp Hw]. split; [exact Hp|].
+      destruct (snd T); [exact Hq|]. rewrite Hw in Hq by reflexivity. exact Hq. }
+    assert (Hinc : incr (map item_idx (proj T (st_log st)))) by (apply incr_proj, G).
+    destruct (sub_path st T idx) eqn:Ep.
+    - (* unsupported wildcard: only the handler is re-initialised *)
+      cbn [fst]. eapply ginv_put; eauto.
+      + intros T'. unfold has_sub_on. cbn [c_sub]. rewrite Es0. reflexivity.
+      + intros r _ _ (Hi & Hep & Hz & Hs & Hk & _). unfold cinv, knows.
+        cbn [c_idx c_epoch c_view c_h c_sub c_ts]. fold idx.
+        split; [exact Hi|]. split; [exact Hep|]. split; [exact Hz|]. split; [|split; [exact Hk|exact I]].
+        unfold initial_handler. destruct (N.eqb idx 0) eqn:E; [|intros ? H; discriminate].
+        intros _ _. apply N.eqb_eq, E.
+    - (* resume *)
+      destruct Hpath as (Hp & _ & _); [discriminate|].
+      destruct (negb (N.eqb idx 0) && head_has_index (buf_items T (st_bufs st)) idx) eqn:Er;
+        [|destruct (find_snap T (st_cache st)); discriminate].
+      apply andb_true_iff in Er as [Er1 Er2]. apply negb_true_iff, N.eqb_neq in Er1.
+      cbn [fst]. change (match find_buf T (st_bufs st) with
+                         | Some b => TBuf T (S (tb_refs b)) (tb_items b) (tb_old b)
+                         | None => TBuf T 1 [] false
+                         end) with (attach_buf st T).
+      eapply ginv_attach with (x0 := x0); eauto; [reflexivity|].
+      intros pub r Hlog Hr Hall (X & HX) Hc. fold T in HX. split.
+      + eapply (cinv_resume (hist_of st)); eauto; fold T.
+        * unfold attach_buf. destruct (find_buf T (st_bufs st)) as [b|] eqn:E; cbn [tb_old]; auto.
+        * intros it Hit. apply proj_item_batch in Hit as (b & Hb & ->).
+          rewrite Forall_forall in Hall. specialize (Hall b Hb). lia.
+        * rewrite attach_items. exact Er2.
+      + intros T' sn Hf. left; exact Hf.
+    - (* cached snapshot *)
+      destruct Hpath as (Hp & _ & _); [discriminate|].
+      destruct (negb (N.eqb idx 0) && head_has_index (buf_items T (st_bufs st)) idx) eqn:Er; [discriminate|].
+      destruct (find_snap T (st_cache st)) as [sn|] eqn:Ef; [|discriminate].
+      cbn [fst]. change (match find_buf T (st_bufs st) with
+                         | Some b => TBuf T (S (tb_refs b)) (tb_items b) (tb_old b)
+                         | None => TBuf T 1 [] false
+                         end) with (attach_buf st T).
+      eapply ginv_attach with (x0 := x0); eauto; [reflexivity|].
+      intros pub r Hlog Hr Hall (X & HX) Hc. fold T in HX. split; [|intros T' sn' Hf; left; exact Hf].
+      destruct G as [_ _ _ _ _ _ _ Gc _]. destruct (Gc T sn Ef) as (Hl & body & A & B2 & D & s & Hit & Hso).
+      destruct Hl as (b & Eb & Hob & Hoff).
+      assert (Hit' : tb_items (attach_buf st T) = tb_items b) by (unfold attach_buf; rewrite Eb; reflexivity).
+      eapply cinv_snapshot; eauto; fold T.
+      * unfold attach_buf. rewrite Eb. exact Hob.
+      * rewrite Hit'. exact Hoff.
+      * eapply (snapok_ext (hist_of st)); [reflexivity|reflexivity|reflexivity| |exact Hso].
+        unfold tail. rewrite Eb. cbn [ob_items]. rewrite Hit'. reflexivity.
+    - (* fresh snapshot *)
+      destruct Hpath as (Hp & Hqle & Hqhi); [discriminate|].
+      destruct (negb (N.eqb idx 0) && head_has_index (buf_items T (st_bufs st)) idx) eqn:Er; [discriminate|].
+      destruct (find_snap T (st_cache st)) as [sn|] eqn:Ef; [discriminate|].
+      cbn [fst]. change (match find_buf T (st_bufs st) with
+                         | Some b => TBuf T (S (tb_refs b)) (tb_items b) (tb_old b)
+                         | None => TBuf T 1 [] false
+                         end) with (attach_buf st T).
+      eapply ginv_attach with (x0 := x0); eauto; [reflexivity|].
+      intros pub r Hlog Hr Hall (X & HX) Hc. fold T in HX.
+      assert (Hgap' : gf = true -> st_queue st = []) by (intros Hgf; apply Hgap; [exact Hgf|reflexivity]).
+      destruct (build_snapok st T qidx pub X (attach_buf st T) G Hlog HX Hqle Hqhi Hgap') as [Hb Hso].
+      assert (Htold : tb_old (attach_buf st T) = false).
+      { unfold attach_buf. destruct (find_buf T (st_bufs st)) as [b|] eqn:E; cbn [tb_old]; auto. }
+      split.
+      + rewrite Hb. eapply cinv_snapshot; eauto. cbn [sn_items]. reflexivity.
+      + intros T' sn' Hf. rewrite Hb in Hf. destruct (st_cache_on st); [|left; exact Hf].
+        destruct (ts_eqb T' T) eqn:E.
+        * apply ts_eqb_eq in E; subst T'. right. split; [reflexivity|].
+          rewrite (find_put_snap_same (Snap T _ _)) in Hf. injection Hf as <-.
+          split; [exists (attach_buf st T); auto|]. eexists _, _, _, _, _. split; [reflexivity|exact Hso].
+        * apply ts_eqb_neq in E. left. rewrite find_put_snap_other in Hf by exact E. exact Hf.
+  Qed.
+
+  Lemma release_hist T st :
+    hist_of (release T st) = hist_of st /\ st_clients (release T st) = st_clients st /\
+    st_cache_on (release T st) = st_cache_on st /\ st_store (release T st) = st_store st.
+  Proof.
+    unfold release. destruct (find_buf T (st_bufs st)) as [b|]; [|auto].
+    destruct (tb_refs b) as [|[|n]]; auto.
+  Qed.
+
+  Lemma unsub_hist st c : hist_of (fst (do_unsub st c)) = hist_of st.
+  Proof.
+    unfold do_unsub. destruct (find_client c (st_clients st)) as [x|]; [|reflexivity].
+    destruct (c_sub x); [|reflexivity]. cbn [fst]. destruct (release_hist (c_ts x)
+      (with_clients st (put_client c (drop_sub x) (st_clients st)))) as [H _]. rewrite H. reflexivity.
+  Qed.
+
+  Lemma unsub_client st c x :
+    find_client c (st_clients st) = Some x ->
+    find_client c (st_clients (fst (do_unsub st c))) = Some (drop_sub x).
+  Proof.
+    intros Ec. unfold do_unsub. rewrite Ec. destruct (c_sub x) eqn:Es; cbn [fst].
+    - destruct (release_hist (c_ts x) (with_clients st (put_client c (drop_sub x) (st_clients st)))) as (_ & H & _).
+      rewrite H. cbn [with_clients st_clients]. apply find_put_client_same.
+    - rewrite Ec. f_equal. destruct x; cbn in *; subst; reflexivity.
+  Qed.
+
+  Lemma forallb_touches T q log :
+    forallb (fun b => negb (touches T b) || N.leb (b_idx b) q) log = true ->
+    Forall (fun b => touches T b = true -> b_idx b <= q) log.
+  Proof.
+    intros H. rewrite forallb_forall in H. rewrite Forall_forall. intros b Hb Ht.
+    specialize (H b Hb). rewrite Ht in H. cbn in H. apply N.leb_le, H.
+  Qed.
+
+  Lemma sub_core_clients st c x0 qidx :
+    fst (do_subscribe_core (with_clients st (put_client c x0 (st_clients st))) c x0 qidx)
+    = fst (do_subscribe_core st c x0 qidx).
+  Proof.
+    unfold do_subscribe_core, sub_path.
+    cbn [with_clients st_store st_queue st_bufs st_cache st_clients st_cache_on st_hi st_log st_base st_epoch].
+    destruct (snd (c_ts x0)); [|destruct (wild_ok (fst (c_ts x0))); [|cbn [fst]; rewrite put_put_client; reflexivity]].
+    all: destruct (negb (N.eqb (c_idx x0) 0) && head_has_index (buf_items (c_ts x0) (st_bufs st)) (c_idx x0));
+      [cbn [fst]; rewrite put_put_client; reflexivity|].
+    all: destruct (find_snap (c_ts x0) (st_cache st)); cbn [fst]; rewrite put_put_client; reflexivity.
+  Qed.
+
+  Lemma ginv_subscribe st c T tok rpc qidx :
+    ginv gf st ->
+    step_ok st (LSubscribe c T tok rpc qidx) = true ->
+    restore_ok st (LSubscribe c T tok rpc qidx) = true ->
+    (gf = true -> gapfree_ok st (LSubscribe c T tok rpc qidx) = true) ->
+    ginv gf (fst (do_subscribe st c T tok rpc qidx)).
+  Proof.
+    intros G Hok Hres Hgap. unfold do_subscribe.
+    cbn [step_ok restore_ok gapfree_ok] in Hok, Hres, Hgap. unfold sub_ts, sub_idx, pre_sub_state in *.
+    destruct (find_client c (st_clients st)) as [x|] eqn:Ec.
+    - pose proof (ginv_unsub st c G) as G1. pose proof (unsub_hist st c) as Hh.
+      set (st1 := fst (do_unsub st c)) in *.
+      assert (Hlog : st_log st1 = st_log st) by (injection Hh; auto).
+      assert (Hhi : st_hi st1 = st_hi st) by (injection Hh; auto).
+      assert (Hq : st_queue st1 = st_queue st) by (injection Hh; auto).
+      apply ginv_sub_core; auto.
+      + apply unsub_client, Ec.
+      + cbn [drop_sub c_ts c_idx]. split; [|split].
+        * rewrite Hlog, Hhi. destruct (snd (c_ts x)); [|destruct (wild_ok (fst (c_ts x))); [|exact I]].
+          all: apply andb_true_iff in Hok as [H1 H2]; split; [apply forallb_touches, H1|apply N.leb_le, H2].
+        * intros b Eb. rewrite Eb in Hres. apply negb_true_iff, Hres.
+        * intros Hgf Hp. specialize (Hgap Hgf). rewrite Hp in Hgap. rewrite Hq.
+          destruct (st_queue st); [reflexivity|discriminate].
+    - set (x0 := Client T tok rpc [] 0 (HSnap []) None (st_epoch st)).
+      rewrite <- (sub_core_clients st c x0 qidx).
+      assert (Hu : fst (do_unsub st c) = st) by (unfold do_unsub; rewrite Ec; reflexivity).
+      rewrite Hu in *.
+      apply ginv_sub_core.
+      + apply ginv_add_idle; assumption.
+      + cbn [with_clients st_clients]. apply find_put_client_same.
+      + reflexivity.
+      + cbn [x0 c_ts c_idx]. split; [|split].
+        * cbn [with_clients st_log st_hi]. destruct (snd T); [|destruct (wild_ok (fst T)); [|exact I]].
+          all: apply andb_true_iff in Hok as [H1 H2]; split; [apply forallb_touches, H1|apply N.leb_le, H2].
+        * cbn [with_clients st_bufs]. intros b Eb. rewrite Eb in Hres. apply negb_true_iff, Hres.
+        * intros Hgf Hp. specialize (Hgap Hgf).
+          change (sub_path (with_clients st (put_client c x0 (st_clients st))) T 0) with (sub_path st T 0) in Hp.
+          rewrite Hp in Hgap. cbn [with_clients st_queue]. destruct (st_queue st); [reflexivity|discriminate].
+  Qed.
+
+  Theorem ginv_step st l :
+    ginv gf st ->
+    step_ok st l = true -> events_ok st l = true -> restore_ok st l = true ->
+    (gf = true -> gapfree_ok st l = true) ->
+    ginv gf (fst (step st l)).
+  Proof.
+    intros G Hok Hev Hres Hgap. destruct l as [b| |c T tok rpc qidx|c|c|rows hi|T]; cbn [step fst].
+    - apply ginv_commit; [exact G|exact Hok|]. cbn [events_ok] in Hev. destruct (b_silent b); [reflexivity|discriminate].
+    - apply ginv_publish, G.
+    - apply ginv_subscribe; assumption.
+    - apply ginv_next, G.
+    - apply ginv_unsub, G.
+    - cbn [restore_ok step_ok] in *. apply ginv_restore; [exact G| |exact Hok].
+      destruct (st_queue st); [reflexivity|discriminate].
+    - apply ginv_evict, G.
+  Qed.
+
+  (* the four assumptions along a whole schedule *)
+  Definition sched_ok (st : state) (ls : list label) : Prop :=
+    valid_from st ls = true /\ all_from events_ok st ls = true /\ all_from restore_ok st ls = true /\
+    (gf = true -> all_from gapfree_ok st ls = true).
+
+  Lemma sched_ok_cons st l ls :
+    sched_ok st (l :: ls) ->
+    (step_ok st l = true /\ events_ok st l = true /\ restore_ok st l = true /\
+     (gf = true -> gapfree_ok st l = true)) /\ sched_ok (fst (step st l)) ls.
+  Proof.
+    intros (H1 & H2 & H3 & H4). cbn [valid_from all_from] in *.
+    apply andb_true_iff in H1 as [H1a H1b]. apply andb_true_iff in H2 as [H2a H2b].
+    apply andb_true_iff in H3 as [H3a H3b].
+    split; [|split; [exact H1b|split; [exact H2b|split; [exact H3b|]]]].
+    - repeat split; auto. intros Hgf. specialize (H4 Hgf). apply andb_true_iff in H4. apply H4.
+    - intros Hgf. specialize (H4 Hgf). apply andb_true_iff in H4. apply H4.
+  Qed.
+
+  Theorem ginv_run st ls : ginv gf st -> sched_ok st ls -> ginv gf (run_from st ls).
+  Proof.
+    revert st. induction ls as [|l ls IH]; intros st G Hs; [exact G|].
+    apply sched_ok_cons in Hs as [(H1 & H2 & H3 & H4) Hs']. cbn [run_from fold_left].
+    apply IH; [|exact Hs']. apply ginv_step; assumption.
   Qed.
 End Preserve.
